@@ -266,6 +266,99 @@ theorem strictSorted_simplify (rm l : List Suffix) : strictSorted (simplify rm l
   | nil => rfl
   | cons x t ih => exact strictSorted_insertSfx x _ ih
 
+/-! ### a strictly sorted list is determined by its members -/
+
+theorem sfxLt_irrefl : ∀ x : Suffix, sfxLt x x = false := by
+  intro x
+  induction x with
+  | nil => rfl
+  | cons a as ih => simp [sfxLt, ih, String.lt_irrefl]
+
+theorem sfxLt_trans : ∀ (x y z : Suffix), sfxLt x y = true → sfxLt y z = true → sfxLt x z = true := by
+  intro x
+  induction x with
+  | nil =>
+    intro y z h1 h2
+    cases y with
+    | nil => simp [sfxLt] at h1
+    | cons b bs =>
+      cases z with
+      | nil => simp [sfxLt] at h2
+      | cons c cs => rfl
+  | cons a as ih =>
+    intro y z h1 h2
+    cases y with
+    | nil => simp [sfxLt] at h1
+    | cons b bs =>
+      cases z with
+      | nil => simp [sfxLt] at h2
+      | cons c cs =>
+        simp only [sfxLt, Bool.or_eq_true, decide_eq_true_eq, Bool.and_eq_true] at h1 h2 ⊢
+        rcases h1 with h1 | ⟨rfl, h1⟩
+        · rcases h2 with h2 | ⟨rfl, _⟩
+          · exact Or.inl (String.lt_trans h1 h2)
+          · exact Or.inl h1
+        · rcases h2 with h2 | ⟨rfl, h2⟩
+          · exact Or.inl h2
+          · exact Or.inr ⟨rfl, ih bs cs h1 h2⟩
+
+theorem strictSorted_head_lt : ∀ (l : List Suffix) (x : Suffix), strictSorted (x :: l) = true →
+    ∀ y ∈ l, sfxLt x y = true := by
+  intro l
+  induction l with
+  | nil => intro x _ y hy; simp at hy
+  | cons z t ih =>
+    intro x h y hy
+    simp only [strictSorted, Bool.and_eq_true] at h
+    rcases List.mem_cons.mp hy with rfl | hy
+    · exact h.1
+    · exact sfxLt_trans _ _ _ h.1 (ih z h.2 y hy)
+
+/-- a strictly sorted list is determined by its members -/
+theorem strictSorted_ext : ∀ (l1 l2 : List Suffix), strictSorted l1 = true → strictSorted l2 = true →
+    (∀ x, x ∈ l1 ↔ x ∈ l2) → l1 = l2 := by
+  intro l1
+  induction l1 with
+  | nil =>
+    intro l2 _ _ hm
+    cases l2 with
+    | nil => rfl
+    | cons b t => exact absurd ((hm b).mpr (List.mem_cons_self ..)) (by simp)
+  | cons a t1 ih =>
+    intro l2 h1 h2 hm
+    cases l2 with
+    | nil => exact absurd ((hm a).mp (List.mem_cons_self ..)) (by simp)
+    | cons b t2 =>
+      have hlt1 := strictSorted_head_lt t1 a h1
+      have hlt2 := strictSorted_head_lt t2 b h2
+      have hab : a = b := by
+        rcases List.mem_cons.mp ((hm a).mp (List.mem_cons_self ..)) with e | ha
+        · exact e
+        · rcases List.mem_cons.mp ((hm b).mpr (List.mem_cons_self ..)) with e | hb
+          · exact e.symm
+          · have := sfxLt_trans _ _ _ (hlt1 b hb) (hlt2 a ha)
+            rw [sfxLt_irrefl] at this
+            cases this
+      subst hab
+      congr 1
+      apply ih t2 (strictSorted_tail h1) (strictSorted_tail h2)
+      intro x
+      constructor
+      · intro hx
+        rcases List.mem_cons.mp ((hm x).mp (List.mem_cons_of_mem _ hx)) with e | hx2
+        · subst e
+          have := hlt1 x hx
+          rw [sfxLt_irrefl] at this
+          cases this
+        · exact hx2
+      · intro hx
+        rcases List.mem_cons.mp ((hm x).mpr (List.mem_cons_of_mem _ hx)) with e | hx1
+        · subst e
+          have := hlt2 x hx
+          rw [sfxLt_irrefl] at this
+          cases this
+        · exact hx1
+
 /-! ### the chain invariant -/
 
 theorem amountOf_eq_zero_of_not_mem {c : Coins} {d : Denom} (h : d ∉ Coins.denoms c) : Coins.amountOf c d = 0 := by
